@@ -106,7 +106,7 @@ pub fn generate_sibling_names(seed: u64, em: &mut Emitter) {
 pub fn generate(thorough: bool, seed: u64, em: &mut Emitter) {
     generate_sibling_names(seed, em);
     super::c14::generate_edge_paths(seed, 40, em);
-    super::c02::generate_large(seed ^ 6, if thorough { 40 } else { 8 }, true, em);
+    super::c02::generate_large(seed ^ 6, if thorough { 45 } else { 9 }, true, em);
     let mut r = Rng::new(seed ^ 0xC06);
     let n = if thorough { 30_000 } else { 2_000 };
     for i in 0..n {
